@@ -14,6 +14,8 @@
 (*   verifymu the verdict on (pk, mu, sigma) equals Verify_internal from line 8  *)
 (*   pverify  public verifier: prefix check, then ML-DSA.Verify with empty ctx   *)
 (*   signed   a signature returned by a (hedged) signer verifies                 *)
+(*            (outputs are also logged as retained across later calls: sig0/sig, *)
+(*            out/out2 must be equal, the verdict applies to the value in use)   *)
 (*   signfail a signer failed, panicked or did not return on a valid key         *)
 (*   prehash  ComputePrehash = 0xFF || key id || mu                              *)
 (*   composite  composite verifier accepts iff both components verify            *)
@@ -45,10 +47,12 @@ ClassicalVerify(alg, pk, m, sig) ==
     [] alg = "ECDSA-P256" -> ECDSAVerifyDER("P256", "SHA256", pk, m, sig)
     [] alg = "ECDSA-P384" -> ECDSAVerifyDER("P384", "SHA384", pk, m, sig)
 
+\* ok2 (where logged) is the verdict of a second call on the same buffers: verification is repeatable
 Verdict(what, want, e) ==
   IF e.panic THEN <<what \o " panicked", ToString(want)>>
-  ELSE IF e.ok = want THEN <<>>
-  ELSE <<what \o " verdict differs from FIPS 204", ToString(want)>>
+  ELSE IF e.ok # want THEN <<what \o " verdict differs from FIPS 204", ToString(want)>>
+  ELSE IF "ok2" \in DOMAIN e /\ e.ok2 # want THEN <<what \o " verdict of a repeated call differs from FIPS 204", ToString(want)>>
+  ELSE <<>>
 
 Judge(e) ==
   CASE e.ev = "note" -> <<>>                          \* coverage only
@@ -83,6 +87,8 @@ Judge(e) ==
          IN  IF e.panic THEN <<"signing panicked", "">>
              ELSE IF e.hung THEN <<"signing did not return within the time limit", "">>
              ELSE IF e.err THEN <<"signing failed on a valid key", "">>
+             \* sig0 (where logged) is the copy taken when the call returned, sig the retained result read later
+             ELSE IF "sig0" \in DOMAIN e /\ e.sig0 # e.sig THEN <<"a returned signature was changed by a later call on the same primitive", e.sig0>>
              ELSE IF ~IsPrefixOf(pre, sg) THEN <<"signature lacks the key's output prefix", BytesToHex(pre)>>
              ELSE IF ~Verify(B(e.pk), B(e.msg), Drop(sg, Len(pre)), <<>>, ParamSet(e.set))
                   THEN <<"produced signature does not verify under FIPS 204", "TRUE">>
@@ -91,7 +97,10 @@ Judge(e) ==
     [] e.ev = "prehash" ->
          LET want == BytesToHex(<<255>> \o B(e.id) \o Mu(H(B(e.pk), 64), MPrime(B(e.msg), <<>>)))
          IN  IF e.panic \/ e.err THEN <<"ComputePrehash failed", want>>
-             ELSE IF e.out # want THEN <<"prehash differs from 0xFF || id || mu", want>> ELSE <<>>
+             ELSE IF e.out # want THEN <<"prehash differs from 0xFF || id || mu", want>>
+             \* out2 (where logged) is the retained result read after later calls on the same primitive
+             ELSE IF "out2" \in DOMAIN e /\ e.out2 # want THEN <<"a returned prehash was changed by a later call on the same primitive", want>>
+             ELSE <<>>
     [] e.ev = "composite" ->
          LET P   == ParamSet(e.inst)
              pre == Prefix(e.variant, e.id)
